@@ -42,6 +42,8 @@ ROOT={
  'btr':'bt/bts/btr/btc with a memory base and a register bit offset must address the bit string beyond the operand',
  'btc':'bt/bts/btr/btc with a memory base and a register bit offset must address the bit string beyond the operand',
  'bt':'bt/bts/btr/btc with a memory base and a register bit offset must address the bit string beyond the operand',
+ 'addu.qb':'MIPS DSP ASE addu.qb/subu.qb (SPECIAL3, capstone reports the instruction id of addu/subu) are lifted as the plain 32-bit addu/subu instead of four byte lanes',
+ 'subu.qb':'MIPS DSP ASE addu.qb/subu.qb (SPECIAL3, capstone reports the instruction id of addu/subu) are lifted as the plain 32-bit addu/subu instead of four byte lanes',
  'xadd':'xadd with the same register as both operands / 8-16 bit forms',
 }
 p='/verif/known_findings.json'
